@@ -49,9 +49,19 @@ func NewJSONParser(cdc codec.Codec) (*JSONParser, error) {
 
 // Parse returns the orbiter payload from a JSON formatted
 // string or an error.
-func (p *JSONParser) Parse(jsonString string) (*core.Payload, error) {
+func (p *JSONParser) Parse(jsonString string) (payload *core.Payload, err error) {
+	// NOTE: the string is user controlled and the generated proto code is not
+	// panic free on arbitrary input: a null element in a repeated field of the
+	// attributes (e.g. "fees_info":[null]) is dereferenced while the codec
+	// packs them into an Any.
+	defer func() {
+		if r := recover(); r != nil {
+			payload, err = nil, core.ErrParsingPayload.Wrapf("failed to parse json string: %v", r)
+		}
+	}()
+
 	var jsonData map[string]any
-	err := json.Unmarshal([]byte(jsonString), &jsonData)
+	err = json.Unmarshal([]byte(jsonString), &jsonData)
 	if err != nil {
 		return nil, core.ErrParsingPayload.Wrapf("not a valid json string: %s", err.Error())
 	}
